@@ -975,6 +975,124 @@ PROPS["C14"] = dict(
 )
 
 
+# ---------------------------------------------------------------------------- C15
+def _kv(a):
+    return {x.split("=", 1)[0]: x.split("=", 1)[1] for x in a if "=" in x and not x.startswith("tag:")}
+
+
+def _parties(r):
+    out = {}
+    for tok_ in r:
+        if tok_.startswith("P") and ":" in tok_:
+            k, v = tok_.split(":", 1)
+            out[int(k[1:])] = None if v == "-" else v.split("|")
+    return out
+
+
+def _lagrange0(points, q):
+    """value at 0 of the polynomial through (x_i, y_i), arithmetic mod prime q"""
+    acc = 0
+    for i, (xi, yi) in enumerate(points):
+        num, den = 1, 1
+        for j, (xj, _) in enumerate(points):
+            if i != j:
+                num = num * (-xj) % q
+                den = den * (xi - xj) % q
+        acc = (acc + yi * num * pow(den, -1, q)) % q
+    return acc
+
+
+def pred_c15(line, st):
+    """secret sharing / key generation runs of the real classes (n forked parties), judged independently
+    of the Lean model: agreement on QUAL and y, shares match the verification keys, every t+1 honest
+    shares interpolate to the key's discrete logarithm, dealer-based sharing reconstructs the dealer's secret"""
+    import itertools
+    op, a, r = toks(line)
+    if op not in ("prop.dkg.gen", "prop.dkg.vss"):
+        return None
+    kv = _kv(a)
+    n, t = int(kv["n"]), int(kv["t"])
+    nums = [x for x in a if x.isdigit()]
+    p, q, g, h = (int(x) for x in nums[:4])
+    honest = ilist(kv["honest"])
+    P = _parties(r)
+    tag = tag_of(a)
+    where = "seed=%s case=%s n=%d t=%d %s" % (kv.get("seed"), kv.get("case"), n, t, tag)
+    if any("CRASH" in x.upper() for x in r):
+        return "a party crashed (%s)" % where
+    if op == "prop.dkg.gen":
+        st["gen"] = st.get("gen", 0) + 1
+        H = [P.get(i) for i in honest]
+        if any(x is None for x in H):
+            return "an honest party died during Generate (%s)" % where
+        if any(x[0] != "1" for x in H):
+            return "Generate returned false for honest parties %s although at most t parties deviate (%s)" % ([i for i in honest if P[i][0] != "1"], where)
+        quals = {x[1] for x in H}
+        if len(quals) != 1:
+            return "honest parties disagree on QUAL: %s (%s)" % (sorted(quals), where)
+        qual = ilist(H[0][1])
+        if not set(honest) <= set(qual):
+            return "honest parties %s are not in QUAL %s (%s)" % (sorted(set(honest) - set(qual)), qual, where)
+        ys = {x[4] for x in H}
+        if len(ys) != 1:
+            return "honest parties disagree on the public key (%s)" % where
+        y = int(H[0][4])
+        if len({x[5] for x in H}) != 1:
+            return "honest parties disagree on the verification keys (%s)" % where
+        v = ilist(H[0][5])
+        for i in honest:
+            x = int(P[i][2])
+            if pow(g, x, p) != v[i] % p:
+                return "share of honest party %d does not match its public verification key: g^x_i != v_i (%s)" % (i, where)
+            if P[i][7] != "1":
+                return "CheckKey failed at honest party %d (%s)" % (i, where)
+        if len(honest) >= t + 1:
+            subsets = list(itertools.combinations(honest, t + 1))
+            if len(subsets) > 40:
+                subsets = subsets[:20] + subsets[-20:]
+            secrets = set()
+            for S in subsets:
+                secrets.add(_lagrange0([(i + 1, int(P[i][2])) for i in S], q))
+            if len(secrets) != 1:
+                return "different (t+1)-subsets of honest shares interpolate to different secrets (%s)" % where
+            if pow(g, secrets.pop(), p) != y:
+                return "the secret interpolated from honest shares is not the discrete logarithm of the public key (%s)" % where
+        return None
+    # ---- dealer-based sharing
+    st["vss"] = st.get("vss", 0) + 1
+    dealer = int(kv["dealer"])
+    sigma = int(kv["sigma"])
+    H = {i: P.get(i) for i in honest if i != dealer}
+    if any(x is None for x in H.values()):
+        return "an honest party died during Share (%s)" % where
+    rets = {x[0] for x in H.values()}
+    if len(rets) > 1:
+        return "honest receivers disagree on the outcome of Share: %s (%s)" % ({i: x[0] for i, x in H.items()}, where)
+    if dealer in honest and rets and rets != {"1"}:
+        return "honest receivers rejected the sharing of an honest dealer (%s)" % where
+    if rets == {"1"}:
+        As = {x[3] for x in H.values()}
+        if len(As) != 1:
+            return "honest receivers hold different commitments (%s)" % where
+        A = ilist(next(iter(As)))
+        for i, x in H.items():
+            lhs = pow(g, int(x[1]), p) * pow(h, int(x[2]), p) % p
+            rhs = 1
+            for k, Ak in enumerate(A):
+                rhs = rhs * pow(Ak, (i + 1) ** k, p) % p
+            if lhs != rhs:
+                return "share of honest receiver %d is inconsistent with the dealer's commitments after an accepted sharing (%s)" % (i, where)
+        recs = {x[5] for x in H.values() if len(x) > 5 and x[4] == "1"}
+        if len(recs) > 1:
+            return "honest parties reconstruct different secrets: %s (%s)" % (sorted(recs), where)
+        if dealer in honest and recs and recs != {str(sigma)}:
+            return "reconstruction returned %s, the honest dealer shared %d (%s)" % (recs, sigma, where)
+        bad = [i for i, x in H.items() if len(x) > 5 and x[4] != "1" and "silentrec" not in tag and "badrecshare" not in tag]
+        if bad and len(honest) >= t + 1 and dealer in honest:
+            return "Reconstruct failed at honest parties %s (%s)" % (bad, where)
+    return None
+
+
 # ---------------------------------------------------------------------------- C16
 def pred_c16(line, st):
     """signature verifiers against an independent evaluation of the textbook equations"""
